@@ -160,7 +160,7 @@ func classifyPartValue(p *Program, ps partStore) (string, bool, string) {
 func rulePartProv(r *Run) {
 	p := r.P
 	stores := collectPartStores(p)
-	r.Min("part_stores", len(stores), 25)
+	r.Min("part_store_key_patterns", distinctPartKeys(stores), 12) // distinct kinds of part written; robust to merging sibling store sites into one helper
 	seen := map[string]int{}
 	for _, ps := range stores {
 		kind, ok, why := classifyPartValue(p, ps)
@@ -239,6 +239,30 @@ func ruleCTMedia(r *Run) {
 				if cal := staticCallee(c); cal != nil && p.inModule(cal) {
 					if _, has := caseConsts(cal, func(string) bool { return true }); has {
 						namer = cal
+						// a wrapper that only hands the format on (an allocation loop around the
+						// real namer): follow it to the function that decides by format
+						for depth := 0; depth < 3; depth++ {
+							m, _ := caseConsts(namer, func(string) bool { return true })
+							if tg, _, _ := tableExtension(p, namer); len(m) > 0 || tg != nil {
+								break
+							}
+							var inner *ssa.Function
+							allInstrs(namer, func(in2 ssa.Instruction) {
+								c2, ok := in2.(*ssa.Call)
+								if !ok {
+									return
+								}
+								if cal2 := staticCallee(c2); cal2 != nil && cal2 != namer && p.inModule(cal2) && isStringType(c2.Type()) {
+									if _, has2 := caseConsts(cal2, func(string) bool { return true }); has2 {
+										inner = cal2
+									}
+								}
+							})
+							if inner == nil {
+								break
+							}
+							namer = inner
+						}
 					}
 				}
 			}
@@ -278,11 +302,8 @@ func ruleCTMedia(r *Run) {
 			if rg, rf, _ := tableExtension(p, registrar); rg == ng && rf == nf {
 				dotted := false
 				for _, ret := range returnsOf(namer) {
-					sym := symOf(retResult(ret, 0)).norm()
-					for i, part := range sym {
-						if part.Sym != nil && (part.Sym == nv || derivesFrom(part.Sym, nv)) && i > 0 && sym[i-1].Sym == nil && strings.HasSuffix(sym[i-1].Const, ".") {
-							dotted = true
-						}
+					if dottedSym(retResult(ret, 0), nv, 0) {
+						dotted = true
 					}
 				}
 				r.Check("ct-media", shortName(fn)+":table", ps.MU.Pos(), dotted,
@@ -531,6 +552,56 @@ func ruleSchemaOPC(r *Run) {
 				fmt.Sprintf("OPC element <%s> has attribute %s; the struct that is parsed on open and re-marshalled on save does not model it, so the attribute is lost (e.g. TargetMode=\"External\" of a hyperlink relationship: the link comes back as an internal, dangling target)", tn, a))
 		}
 	}
+}
+
+// dottedSym: the string v contains "." immediately followed by (a value derived from) nv — also
+// when the dotted extension is first put into a variable that has other sources on other paths
+// (ext = "." + info.extension in the known-format branch, the caller's extension otherwise).
+func dottedSym(v, nv ssa.Value, depth int) bool {
+	sym := symOf(v).norm()
+	for i, part := range sym {
+		if part.Sym == nil || !(derivesFrom(part.Sym, nv) || flowsFrom(part.Sym, nv, 0)) {
+			continue
+		}
+		if i > 0 && sym[i-1].Sym == nil && strings.HasSuffix(sym[i-1].Const, ".") {
+			return true
+		}
+		if ph, ok := part.Sym.(*ssa.Phi); ok && depth < 3 {
+			for _, e := range ph.Edges {
+				if flowsFrom(e, nv, 0) && dottedSym(e, nv, depth+1) {
+					return true
+				}
+			}
+		}
+	}
+	return false
+}
+
+// flowsFrom: target is v or an operand of the string expression that computes v.
+func flowsFrom(v, target ssa.Value, depth int) bool {
+	if v == target {
+		return true
+	}
+	if depth > 6 {
+		return false
+	}
+	switch x := v.(type) {
+	case *ssa.Phi:
+		for _, e := range x.Edges {
+			if flowsFrom(e, target, depth+1) {
+				return true
+			}
+		}
+	case *ssa.BinOp:
+		return flowsFrom(x.X, target, depth+1) || flowsFrom(x.Y, target, depth+1)
+	case *ssa.MakeInterface:
+		return flowsFrom(x.X, target, depth+1)
+	case *ssa.ChangeType:
+		return flowsFrom(x.X, target, depth+1)
+	case *ssa.Convert:
+		return flowsFrom(x.X, target, depth+1)
+	}
+	return false
 }
 
 // tableExtension: fn looks its ImageFormat parameter up in a package-level map of structs and uses
